@@ -64,6 +64,9 @@ type Node struct {
 	pterm int // last persisted (or loaded) term / vote
 	pvote string
 
+	snapIdx    int // label of the newest snapshot this node published or was constructed over
+	pendingOps int // replicated submissions to this incarnation whose future has not resolved
+
 	ghost   atomic.Bool
 	running bool
 	created bool
@@ -397,6 +400,10 @@ func (c *Cluster) Observe() {
 
 // Settle waits until every goroutine in the bubble is durably blocked, then observes.
 func (c *Cluster) Settle() {
+	synctest.Wait()
+	// the harness state machine lets one virtual microsecond pass inside Snapshot (so that
+	// snapshot directory names differ); give it that microsecond before observing
+	time.Sleep(2 * time.Microsecond)
 	synctest.Wait()
 	c.Observe()
 }
